@@ -137,3 +137,14 @@ func wrapGood(idx, count, ln uint32) bool {
 	}
 	return false
 }
+
+// --- C02.R11: bulk clear of handle storage ---
+
+type entityPool struct {
+	entities []int
+}
+
+func badBulkClear(p *entityPool) {
+	clear(p.entities)
+	p.entities = p.entities[:1]
+}
